@@ -48,8 +48,10 @@ ALL_ERRORS = {**KIND_ERRORS, **STRICT_ERRORS}
 
 
 def _helper_like(qual):
-    last = qual.split('.')[-1]
-    return (last.startswith('_') and not last.startswith('__')) or '<locals>' in qual or last in ('__init__', '__post_init__')
+    parts = qual.split('.')
+    last = parts[-1]
+    private_class = len(parts) >= 2 and parts[-2].startswith('_') and not parts[-2].startswith('__') and parts[-2][1:2].isupper()
+    return (last.startswith('_') and not last.startswith('__')) or '<locals>' in qual or last in ('__init__', '__post_init__') or private_class
 
 
 def under(*quals):
